@@ -144,7 +144,7 @@ def write_replay(prop, f, run, extra=None):
 # E-dmg = single-site damage over a family of WAL layouts
 FALLBACKS = {
     'E-fault': ('C11',),
-    'E-dmg': ('C01', 'C07', 'C08', 'C09', 'C10', 'C12'),
+    'E-dmg': ('C01', 'C07', 'C08', 'C09', 'C10', 'C12', 'C15'),
     'E-hist': ('C01', 'C03', 'C04', 'C05', 'C06', 'C10', 'C12', 'C13', 'C14', 'C15', 'C16', 'C17', 'C18'),
 }
 
